@@ -40,6 +40,7 @@ type Case struct {
 	Entry        string // sync | announce
 	SegScoped    bool   // apply the segment size per call (ScopedSegmentDepthLimit) instead of subscriber-wide
 	ScopedHook   bool   // the call brings its own block hook (ScopedBlockHook): the subscriber's hook must stay silent
+	LibHook      bool   // the subscriber's hook delegates the choice of the next segment to dagsync.MakeGeneralBlockHook
 
 	Segs      []int64 // segment sizes: -1 = disabled
 	Prestores [][]int // positions pre-stored in the destination store
@@ -75,6 +76,7 @@ func genCase(t *rapid.T) Case {
 	}
 	c.SegScoped = c.Kind == "ads" && c.Entry == "sync" && rapid.Bool().Draw(t, "segscoped")
 	c.ScopedHook = c.Entry == "sync" && c.Kind != "one" && rapid.IntRange(0, 2).Draw(t, "scopedhook") == 0
+	c.LibHook = c.Kind == "ads" && !c.ScopedHook && rapid.IntRange(0, 2).Draw(t, "libhook") == 0
 	// family
 	segSet := map[int64]bool{-1: true, 1: true}
 	for i := 0; i < 3; i++ {
@@ -240,6 +242,7 @@ func runMember(t *testing.T, c Case, seg int64, pre []int) (o obs, fail string) 
 	synctest.Test(t, func(t *testing.T) {
 		w := world.New()
 		defer w.Close()
+		w.LibraryHook = c.LibHook
 		p := w.AddPublisher(0, c.Discovery, "")
 		var chain []cid.Cid
 		if c.Kind == "ads" {
@@ -566,7 +569,7 @@ func runCase(t *testing.T) func(Case) pbt.Result {
 	}
 }
 
-const rule = "base configuration: chain kind (ads via SyncAdChain or announce, entries via SyncEntries / SyncOneEntry, a path of generic linked nodes via SyncHAMTEntries) x length 1..12 x initial latest-sync (none, SetLatestSync position, earlier real sync, WithLastKnownSync, head, off-chain) x stop CID (none, position, head, off-chain) x resync x explicit or queried head x the subscriber's block hook or a hook scoped to the call x AdsDepthLimit / EntriesDepthLimit / FirstSyncDepth / ScopedDepthLimit (unset, -1, 1..n+2) x plain or discovery transport; each base configuration is run as a family over segment sizes {disabled, 1, 3 drawn in 1..n+2} (subscriber-wide or per call) x pre-stored subsets {none, all, drawn, head only}; oracles: reference model of the expected block list (hooks in order, once each, right peer; blocks readable and hashing to their CID; returned head; latest-sync and exactly one event with the count, or unchanged and none), request log (block requests = expected list minus locally stored blocks, in order; head request iff queried), and identical observations across the family. Non-trivial: expected list >= 2 blocks and (cut by stop/depth, or segment smaller than the list, or something pre-stored); distinct by base configuration."
+const rule = "base configuration: chain kind (ads via SyncAdChain or announce, entries via SyncEntries / SyncOneEntry, a path of generic linked nodes via SyncHAMTEntries) x length 1..12 x initial latest-sync (none, SetLatestSync position, earlier real sync, WithLastKnownSync, head, off-chain) x stop CID (none, position, head, off-chain) x resync x explicit or queried head x the subscriber's block hook (choosing the next segment itself or through the library's MakeGeneralBlockHook) or a hook scoped to the call x AdsDepthLimit / EntriesDepthLimit / FirstSyncDepth / ScopedDepthLimit (unset, -1, 1..n+2) x plain or discovery transport; each base configuration is run as a family over segment sizes {disabled, 1, 3 drawn in 1..n+2} (subscriber-wide or per call) x pre-stored subsets {none, all, drawn, head only}; oracles: reference model of the expected block list (hooks in order, once each, right peer; blocks readable and hashing to their CID; returned head; latest-sync and exactly one event with the count, or unchanged and none), request log (block requests = expected list minus locally stored blocks, in order; head request iff queried), and identical observations across the family. Non-trivial: expected list >= 2 blocks and (cut by stop/depth, or segment smaller than the list, or something pre-stored); distinct by base configuration."
 
 var assumptions = []string{"strict ads selector (the default); the non-strict selector follows every link and is not modelled", "resync together with a queried head: latest-sync update is not asserted (documentation and code disagree)", "announce-triggered syncs announce the chain head"}
 
